@@ -111,16 +111,38 @@ theorem outerOk_iff (key : Nat) (d : Digest) (o : Env) :
   | some s => simp
 
 theorem sigCandidate_plain (key : Nat) (e so m : Env) (hw : so.subject.isWrapped = false) :
-    sigCandidate h V key e so = some m ↔ m = so ∧ ReadableSigBy V key so e.subject.digest := by
-  unfold sigCandidate ReadableSigBy isSignatureFromKey
+    sigCandidate h V key e so = some m ↔
+      ∃ s, extractSignature so = some s ∧ V.verify key s e.subject.digest = true ∧ m = newLeaf h s := by
+  unfold sigCandidate isSignatureFromKey
   simp only [hw, Bool.false_eq_true, if_false]
   cases hx : extractSignature so with
   | none => simp
   | some s =>
     by_cases hv : V.verify key s e.subject.digest = true
-    · simp only [hv, if_true, Option.some.injEq, exists_eq_left', and_true]
+    · simp only [hv, if_true, Option.some.injEq, true_and, exists_eq_left']
       exact ⟨fun hm => hm.symm, fun hm => hm.symm⟩
     · simp [hv]
+
+/-- the plain branch in the vocabulary of the theorems: the object is a readable signature by
+the key, and what is handed back is the bare signature, a leaf -/
+theorem sigCandidate_plain_readable (key : Nat) (e so m : Env) (hw : so.subject.isWrapped = false)
+    (hc : sigCandidate h V key e so = some m) :
+    ReadableSigBy V key so e.subject.digest ∧ m.assertions = [] ∧
+      ReadableSigBy V key m e.subject.digest := by
+  obtain ⟨s, hs, hv, rfl⟩ := (sigCandidate_plain h V key e so m hw).1 hc
+  obtain ⟨y, rfl⟩ := extractSignature_tagged so s hs
+  refine ⟨⟨_, hs, hv⟩, rfl, _, ?_, hv⟩
+  simp [extractSignature, newLeaf]
+
+theorem sigCandidate_plain_isSome (key : Nat) (e so : Env) (hw : so.subject.isWrapped = false) :
+    (sigCandidate h V key e so).isSome = true ↔ ReadableSigBy V key so e.subject.digest := by
+  constructor
+  · intro hs
+    obtain ⟨m, hm⟩ := Option.isSome_iff_exists.1 hs
+    exact (sigCandidate_plain_readable h V key e so m hw hm).1
+  · rintro ⟨s, hs, hv⟩
+    rw [(sigCandidate_plain h V key e so (newLeaf h s) hw).2 ⟨s, hs, hv, rfl⟩]
+    rfl
 
 theorem sigCandidate_wrapper_eq (key : Nat) (e so inner : Env) (d : Digest)
     (hs : so.subject = .wrapped inner d) :
